@@ -339,7 +339,7 @@ pub fn register(l: &mut Vec<Obl>) {
                     r.goal("value", d.value.close(tf::srgb_decode(v[2]), 1e-6));
                     r
                 });
-            $m!(l; concat!("c02_hwb_standard_change", $sfx), "C02", Tier::Quick,
+            $m!(l; concat!("c02_hwb_standard_change", $sfx), "C02", Tier::Thorough,
                 "HWB of sRGB converted to HWB of linear sRGB: blackness = 1 - decode(1 - B) and whiteness = decode(W) (hexcone: max component = 1 - B, min component = W; IEC 61966-2-1 decoding is increasing) within 1e-6, for every hue of the stated range and W + B <= 1, B <= 0.99",
                 ["<Hwb<S2,T> as FromColorUnclamped<Hwb<S1,T>>>", "<Hsv<S2,T> as FromColorUnclamped<Hsv<S1,T>>>", "<Hsv as FromColorUnclamped<Hwb>>", "<Hwb as FromColorUnclamped<Hsv>>"],
                 [var("h", $hlo, $hhi), var("w", 0.0, 1.0), var("q", 0.0, 0.99)];
@@ -350,7 +350,7 @@ pub fn register(l: &mut Vec<Obl>) {
                     r.goal("blackness", d.blackness.close(T::k(1.0) - tf::srgb_decode(T::k(1.0) - b), 1e-6));
                     r
                 });
-            $m!(l; concat!("c02_hsl_standard_change", $sfx), "C02", Tier::Quick,
+            $m!(l; concat!("c02_hsl_standard_change", $sfx), "C02", Tier::Thorough,
                 "HSL of sRGB converted to HSL of linear sRGB: lightness = (decode(L + C/2) + decode(L - C/2)) / 2 with C = (1 - |2L - 1|) S (bi-hexcone: max = L + C/2, min = L - C/2; IEC 61966-2-1 decoding is increasing) within 1e-6, for every hue of the stated range and S, L in [0,1]",
                 ["<Hsl<S2,T> as FromColorUnclamped<Hsl<S1,T>>>", "<Rgb as FromColorUnclamped<Hsl>>", "<Hsl as FromColorUnclamped<Rgb>>"],
                 [var("h", $hlo, $hhi), var("s", 0.0, 1.0), var("l", 0.0, 1.0)];
@@ -365,8 +365,20 @@ pub fn register(l: &mut Vec<Obl>) {
         }};
     }
     standard_change!(obl, "_simd_path", 0.0, 360.0);
+    standard_change!(obl, "_simd_path_sector_0", 0.0, 60.0);
+    standard_change!(obl, "_simd_path_sector_1", 60.0, 120.0);
+    standard_change!(obl, "_simd_path_sector_2", 120.0, 180.0);
+    standard_change!(obl, "_simd_path_sector_3", 180.0, 240.0);
+    standard_change!(obl, "_simd_path_sector_4", 240.0, 300.0);
+    standard_change!(obl, "_simd_path_sector_5", 300.0, 360.0);
     standard_change!(oblf, "_scalar_path_sector_0", 5.0, 55.0);
     standard_change!(oblf, "_scalar_path_sector_3", 185.0, 235.0);
+    // attempted with the thorough budget and not decided on this machine: Open (DESIGN.md 9.4)
+    for o in l.iter_mut() {
+        if ["c02_hsl_standard_change_simd_path", "c02_hwb_standard_change_simd_path_sector_0", "c02_hwb_standard_change_scalar_path_sector_0"].contains(&o.name.as_str()) {
+            o.tier = Tier::Open;
+        }
+    }
     obl!(l; "c02_xyz_to_oklab", "C02", Tier::Open,
         "XYZ (D65) -> Oklab equals Ottosson's definition (M1, cube root, M2 with the published matrices) within 1e-3 for XYZ in [0, white] (palette re-derives M1 for its own D65, which differs from the published M1 by up to 1e-4 per entry)",
         ["<Oklab<T> as FromColorUnclamped<Xyz<D65,T>>>::from_color_unclamped", "oklab::m1", "oklab::m2"],
